@@ -1,9 +1,10 @@
 #!/bin/bash
 # confirm.sh <slot> <ID> <variant>: confirm a seeded change in scratch worktree /tmp/r2/confirm/wt<slot> of /repo HEAD
 slot=$1; id=$2; v=$3
-wt=/tmp/r2/confirm/wt$slot
-src=/tmp/r2/${id}s/out/$v
-log=/tmp/r2/confirm/$id-$v.log
+R=${R:-/tmp/r2}
+wt=$R/confirm/wt$slot
+src=$R/${id}s/out/$v
+log=$R/confirm/$id-$v.log
 exec > $log 2>&1
 if [ ! -d $wt ]; then
   git -C /repo worktree add --detach $wt HEAD || exit 9
